@@ -359,6 +359,28 @@ def build_c09(rng, g, a, b):
 
 # ------------------------------------------------------------------ C10
 def build_c10(rng, g, a, b):
+    # every fourth group of a lattice family at a large power-of-two scale (2^33 .. 2^44): all coordinates stay exactly
+    # representable in binary32, but the SQUARE of a cross product of two edges overflows there (the products themselves do
+    # not), so everything that is only compared with zero must keep working; chosen from the group id, not from the
+    # generator state, so that the other groups do not depend on it
+    idx = int(''.join(ch for ch in g.gid if ch.isdigit()) or 0)
+    if idx % 4 == 3 and g.family in ('rect', 'oct', 'share', 'boxes', 'sliver'):   # small coordinates only: 2^44 x 2^6 stays far below 2^63 (N3)
+        f = 2.0 ** (33 + idx % 12)
+        a = map_operand(a, lambda x, y: (x * f, y * f))
+        b = map_operand(b, lambda x, y: (x * f, y * f))
+        g.meta['scale_log2'] = 33 + idx % 12
+    elif idx % 4 == 1 and g.family in ('rect', 'boxes', 'oct'):
+        # small shapes far from the origin, at offsets that are not round in binary (UTM-like eastings / northings); all
+        # coordinates and crossings stay exactly representable in binary32 (integers below 2^24; for the octilinear family,
+        # whose crossings may be half-integers, below 2^21): anything computed from ABSOLUTE coordinates in F loses all
+        # its digits there
+        if g.family == 'oct':
+            ox, oy = float(50001 + 7919 * (idx % 13)), float(1400003 + 10007 * (idx % 59))
+        else:
+            ox, oy = float(500001 + 7919 * (idx % 97)), float(5000011 + 104729 * (idx % 37))
+        a = map_operand(a, lambda x, y: (x + ox, y + oy))
+        b = map_operand(b, lambda x, y: (x + ox, y + oy))
+        g.meta['offset'] = (ox, oy)
     a32, b32 = campaign.to32(a), campaign.to32(b)
     cs = {}
     for op in OPS:
